@@ -17,8 +17,10 @@ def mentions(t, x):
     return any(y == x for y in walk(t))
 
 
-def facts_of(I, norm=lambda t: t):
-    return [or_(not_(norm(p)), norm(q)) for p, q in I.facts]
+def facts_of(I, norm=lambda t: t, before=None):
+    """'a raise under p sets the try's exception flag q': true of what is executed after that raise, so for an event only
+    the facts recorded before it are used (the statements in front of a `raise` still run)"""
+    return [or_(not_(norm(p)), norm(q)) for (p, q), sq in zip(I.facts, I.fact_seq) if before is None or sq <= before]
 
 
 _TRY_RANGES = {}
@@ -78,7 +80,7 @@ def check_json(rep, prog):
     facts = facts_of(I)
     for R in removes:
         where = R.func
-        Rg = and_(R.guard, *facts)
+        Rg = and_(R.guard, *facts_of(I, before=R.seq))
         before = [o for o in opens if o.seq < R.seq]
         if not rep.check(bool(before), rule, "output file opened before the input is removed", where, R.node,
                          "input is removed although no output file has been opened before on this path", node=R.node):
@@ -203,7 +205,7 @@ def check_file(rep, prog):
     rep.count("flush sites (--file)", len(flushes))
     for R in removes:
         where = R.func
-        Rg = and_(norm(R.guard), *facts)
+        Rg = and_(norm(R.guard), *facts_of(I, norm, before=R.seq))
         outs_b = [o for o in outs if o.seq < R.seq]
         i0, env = implies(Rg, Op("attr:clean", ARGS))
         rep.check(i0, rule, "removal only under --clean", where, R.node, "--file input can be removed without --clean (%s)" % env_str(env), node=R.node)
@@ -211,6 +213,18 @@ def check_file(rep, prog):
         rep.check(i1, rule, "removal only when the document was printed", where, R.node,
                   "--file --clean removes the input on a path on which nothing was printed for it (decode failed / PEL filtered "
                   "out)%s" % ((": " + env_str(env)) if env else ""), node=R.node)
+        # ... and that document came out of the decoder: on every path to the removal parsePEL returned a non-empty text (a
+        # display that does not need the decode - the hex dump - does not show that the log is decodable)
+        decs = [e for e in ev if e.kind == "opaquecall" and e.data[0] == PT + "parsePEL" and e.seq < R.seq]
+        i5, env = False, None
+        for D in decs:
+            js = Op("getitem", Op("call:" + PT + "parsePEL", *[norm(a) for a in D.data[1]]), Const(1))
+            for f_ in (compare("ne", Op("len", js), Const(0)), compare("gt", Op("len", js), Const(0)), I.truth(js), compare("ne", js, Const(""))):
+                if not i5:
+                    i5, env = implies(Rg, f_)
+        rep.check(i5, rule, "removal only when the decoder returned a non-empty document", where, R.node,
+                  "--file --clean removes the input on a path on which the decoder did not return a document for it%s" % (
+                      (": " + env_str(env)) if env else ""), node=R.node)
         bad = None
         for o in outs_b:
             later = [f for f in flushes if o.seq <= f.seq < R.seq]
@@ -296,6 +310,9 @@ def run(rep, prog, thorough):
         "that a document was produced, and that --clean was given (implications decided by enumerating the path atoms).")
     check_json(rep, prog)
     check_file(rep, prog)
+    # "the document was printed" means it went to the process's standard output: nobody re-points sys.stdout (shared with C09)
+    from .c09 import check_no_stream_redirection
+    check_no_stream_redirection(rep, prog, "C12.R2.file-clean")
     check_decode_failure_visible(rep, prog)
     nother = check_other_removals(rep, prog)
     rep.floor("input-removal sites", max(rep.analysed.get("input-removal sites (--json)", 0) +
